@@ -40,9 +40,11 @@ class ArrObj(HeapObj):
     def at(self, *idx):
         return z3.Select(self.elems, *idx) if len(idx) > 1 else self.elems[idx[0]]
 
+    src = None
+
     def clone(self):
         c = ArrObj(self.kind, self.shape, self.elems)
-        c.origin, c.ty = self.origin, self.ty
+        c.origin, c.ty, c.src = self.origin, self.ty, self.src
         return c
 
 
@@ -70,6 +72,9 @@ class TArr(T):
         if isinstance(v, Ref) and isinstance(st.heap[v.id], ArrObj):
             o = st.heap[v.id]
             if o.kind == self.kind and o.rank == self.rank:
+                src = getattr(o, "src", None)
+                if src is not None and src[1] is o.elems and all(a is b for a, b in zip(src[2], o.shape)):
+                    return src[0]  # unmodified since it was projected out of this very term
                 return self.dt.mk(*o.shape, o.elems)
         if isinstance(v, SV) and v.ty == self:
             return v.term
@@ -79,6 +84,7 @@ class TArr(T):
         shape = tuple(self.dt.accessor(0, j)(term) for j in range(self.rank))
         o = ArrObj(self.kind, shape, self.dt.accessor(0, self.rank)(term))
         o.origin, o.ty = origin, self
+        o.src = (term, o.elems, o.shape)
         for s in shape:
             st.assume(s >= 0)
         return st.alloc(o)
@@ -259,6 +265,22 @@ class NumpyModel:
 
     def compare_any(self, ex, op, a, b, lineno):
         aa, ab = _is_arr(ex, a), _is_arr(ex, b)
+        if not (aa or ab) and op in CMP:
+            # scalar against a concrete +-inf (extended-real tags, as for array elements)
+            for x, y, flip in ((a, b, False), (b, a, True)):
+                if isinstance(y, float) and y in (float("inf"), float("-inf")) and isinstance(x, SV) and x.ty in (TReal, TInt):
+                    t = x.term if x.ty == TReal else z3.ToReal(x.term)
+                    o = op if not flip else {"Lt": "Gt", "LtE": "GtE", "Gt": "Lt", "GtE": "LtE", "Eq": "Eq", "NotEq": "NotEq"}[op]
+                    pos = y > 0
+                    tag = is_inf if pos else is_ninf
+                    f = {
+                        "Eq": tag(t), "NotEq": z3.Not(tag(t)),
+                        "Lt": z3.Not(z3.Or(is_inf(t), is_nan_r(t))) if pos else z3.BoolVal(False),
+                        "LtE": z3.Not(is_nan_r(t)) if pos else is_ninf(t),
+                        "Gt": z3.BoolVal(False) if pos else z3.Not(z3.Or(is_ninf(t), is_nan_r(t))),
+                        "GtE": is_inf(t) if pos else z3.Not(is_nan_r(t)),
+                    }[o]
+                    return SV(f, TBool)
         if not (aa or ab) or op not in CMP:
             return NotImplemented
         if aa and ab:
@@ -286,13 +308,20 @@ class NumpyModel:
         return self.new(ex, "b", shape, self.lam(len(shape), lambda *i: f(_conv(fa(*i), ka, k), _conv(fb(*i), kb, k))))
 
     def _cmp_special(self, ex, op, A, b):
-        """Comparisons with +-inf (extended-real tags on bound arrays)."""
+        """Comparisons with +-inf (extended-real tags: a real element may be tagged +inf / -inf / nan)."""
         if isinstance(b, float) and b in (float("inf"), float("-inf")) and A.kind == "f":
-            tag = is_inf if b > 0 else is_ninf
-            if op == "Eq":
-                return self.new(ex, "b", A.shape, self.lam(A.rank, lambda *i: tag(A.at(*i))))
-            if op == "NotEq":
-                return self.new(ex, "b", A.shape, self.lam(A.rank, lambda *i: z3.Not(tag(A.at(*i)))))
+            pos = b > 0
+            tag = is_inf if pos else is_ninf
+            f = {
+                "Eq": lambda t: tag(t),
+                "NotEq": lambda t: z3.Not(tag(t)),
+                # x < +inf: x is not +inf and not nan;  x < -inf: never
+                "Lt": (lambda t: z3.Not(z3.Or(is_inf(t), is_nan_r(t)))) if pos else (lambda t: z3.BoolVal(False)),
+                "LtE": (lambda t: z3.Not(is_nan_r(t))) if pos else (lambda t: is_ninf(t)),
+                "Gt": (lambda t: z3.BoolVal(False)) if pos else (lambda t: z3.Not(z3.Or(is_ninf(t), is_nan_r(t)))),
+                "GtE": (lambda t: is_inf(t)) if pos else (lambda t: z3.Not(is_nan_r(t))),
+            }[op]
+            return self.new(ex, "b", A.shape, self.lam(A.rank, lambda *i: f(A.at(*i))))
         return NotImplemented
 
     def unary(self, ex, op, v, lineno):
@@ -893,6 +922,21 @@ class NumpyModel:
             tag = {"isnan": lambda t: is_nan_r(t), "isinf": lambda t: z3.Or(is_inf(t), is_ninf(t)),
                    "isfinite": lambda t: z3.Not(z3.Or(is_inf(t), is_ninf(t), is_nan_r(t)))}[fn]
             return self.new(ex, "b", A.shape, self.lam(A.rank, lambda *i: tag(A.at(*i))))
+        if fn in ("all", "any") and _is_arr(ex, args[0]) and len(args) == 1 and not kwargs:
+            return self.call_method(ex, args[0], f"np.{fn}", [], {}, lineno)
+        if fn == "argmin" and _is_arr(ex, args[0]) and _arr(ex, args[0]).rank == 1 and len(args) == 1:
+            from .engine import PyRaise
+
+            A = _arr(ex, args[0])
+            if not st.decide(A.shape[0] > 0):
+                raise PyRaise("ValueError", lineno)
+            r = st.fresh_int("argmin")
+            j = z3.Int("j!am")
+            st.assume(z3.And(0 <= r, r < A.shape[0]))
+            st.assume(z3.ForAll([j], z3.Implies(z3.And(0 <= j, j < A.shape[0]), A.elems[r] <= A.elems[j]), patterns=[A.elems[j]]))
+            st.assume(z3.ForAll([j], z3.Implies(z3.And(0 <= j, j < r), A.elems[r] < A.elems[j]), patterns=[A.elems[j]]))
+            ex.assumed.add("numpy.argmin: first index of a minimal element (NaN ordering not modelled)")
+            return SV(r, TInt)
         if fn in ("minimum", "maximum") and len(args) == 2:
             r = self.compare_any(ex, "LtE" if fn == "minimum" else "GtE", args[0], args[1], lineno)
             return self.call_builtin(ex, "numpy.where", [r, args[0], args[1]], {}, lineno)
@@ -900,6 +944,14 @@ class NumpyModel:
             A = _arr(ex, args[0])
             if A.rank == 1:
                 return SV(self.vsum(ex, A), TReal if A.kind == "f" else TInt)
+        if fn == "linalg.norm" and _is_arr(ex, args[0]) and len(args) == 1 and not kwargs:
+            A = _arr(ex, args[0])
+            ty = TArr(A.kind, A.rank)
+            f = z3.Function(f"np_norm_{A.kind}{A.rank}", ty.sort(), z3.RealSort())
+            r = f(ty.embed(st, args[0]))
+            st.assume(r >= 0)
+            ex.assumed.add("numpy.linalg.norm: an uninterpreted non-negative function of the array content")
+            return SV(r, TReal)
         if fn in ("exp", "log", "sqrt") and _is_arr(ex, args[0]):
             A = _arr(ex, args[0])
             f = {"exp": np_exp, "log": np_log, "sqrt": np_sqrt}[fn]
